@@ -103,6 +103,8 @@ def quote (s : String) : String :=
     else if c == '\n' then acc ++ "\\n"
     else if c == '\t' then acc ++ "\\t"
     else if c == '\r' then acc ++ "\\r"
+    else if c.toNat < 0x20 || c.toNat == 0x7f || c.toNat == 0x85 || c.toNat == 0x2028 || c.toNat == 0x2029 then
+      acc ++ "\\u{" ++ String.ofList (Nat.toDigits 16 c.toNat) ++ "}"
     else acc.push c) ""
   "\"" ++ body ++ "\""
 
